@@ -530,7 +530,7 @@ func vectorString(v []ReplayItem) string {
 }
 
 type aggT struct {
-	paths, completed, infeasible, panics, budget, forks, asserts, assertQ, unknown int
+	paths, completed, infeasible, panics, budget, forks, asserts, assertQ, unknown, domDecided int
 	sat, unsat                                                                   int
 	solverS                                                                      float64
 	steps                                                                        int64
@@ -552,6 +552,7 @@ func aggregate(results []*InstanceResult) *aggT {
 		a.asserts += r.Asserts
 		a.assertQ += r.AssertQ
 		a.unknown += r.Unknown
+		a.domDecided += r.DomDecided
 		a.sat += r.Solver.Sat
 		a.unsat += r.Solver.Unsat
 		a.solverS += r.Solver.Time.Seconds()
@@ -752,6 +753,7 @@ func writeEvidence(id, tier string, seed int, spec *PropertySpec, hs []HarnessSp
 			"functions_encoded":     sortedKeys(a.symFns),
 			"queries":               map[string]int{"sat": a.sat, "unsat": a.unsat, "unknown": a.unknown, "assertion_queries": a.assertQ},
 			"assertions_discharged": a.asserts,
+			"branch_decisions_by_value_set_propagation": a.domDecided,
 			"solver_s":              a.solverS,
 			"ssa_steps":             a.steps,
 			"paths":                 map[string]int{"completed": a.completed, "infeasible": a.infeasible, "panic": a.panics, "budget_exceeded": a.budget},
